@@ -137,6 +137,9 @@ func (e *Engine) callAssumes(fr *Frame, st *State, fn *ssa.Function, args []SV, 
 		i := 0
 		if sig.Recv() != nil {
 			i = 1
+			if len(args) > 0 {
+				env = env.with("recv", TV{V: args[0], T: sig.Recv().Type()})
+			}
 		}
 		for j := 0; j < sig.Params().Len() && i+j < len(args); j++ {
 			env = env.with(fmt.Sprintf("arg%d", j), TV{V: args[i+j], T: sig.Params().At(j).Type()})
@@ -148,6 +151,24 @@ func (e *Engine) callAssumes(fr *Frame, st *State, fn *ssa.Function, args []SV, 
 				v = rv.(*TupleSV).E[j]
 			}
 			env = env.with(fmt.Sprintf("result%d", j), TV{V: v, T: r.At(j).Type()})
+		}
+		if ca.Ghost {
+			be, ok := ca.Cl.Expr.(*ast.BinaryExpr)
+			var call *ast.CallExpr
+			if ok {
+				call, ok = be.X.(*ast.CallExpr)
+			}
+			if !ok || len(call.Args) != 1 {
+				panic(fmt.Sprintf("contract error: ghost_call %s: need ghost(g) = expr", ca.Text))
+			}
+			g := call.Args[0].(*ast.Ident).Name
+			tv := e.eval(env, be.Y)
+			if tv.Konst != nil {
+				st.ghost[g] = tv.Konst.String()
+			} else {
+				st.ghost[g] = e.vc.define("G_"+g, e.ghostSort(g), e.flatten(tv.T, tv.V)[0])
+			}
+			continue
 		}
 		t, err := e.tryEvalBool(env, ca.Cl.Expr)
 		if err != nil {
@@ -1147,6 +1168,11 @@ func (e *Engine) havocWholeHeap(st *State, why string, preserved ...string) {
 	sortStrings(gs)
 	for _, g := range gs {
 		if matchPreserve("ghost("+g+")", preserved) {
+			continue
+		}
+		if strings.HasPrefix(g, "held_") {
+			// lock state of the executing function: a callee returns with the caller's locks as it found them
+			e.vc.usedExt["a callee without a verified frame returns with the caller's mutexes in the state it found them (lock-state ghosts "+g+" survive such calls)"] = true
 			continue
 		}
 		e.preservedWrite(st, "ghost("+g+")")
